@@ -313,8 +313,9 @@ impl<'tcx> Cx<'tcx> {
         let env = TypingEnv::post_analysis(tcx, body_did);
         if let Const::Unevaluated(uv, _) = c.const_ {
             fields.push(("named", s(tcx.def_path_str(uv.def))));
-            if uv.promoted.is_some() {
+            if let Some(pi) = uv.promoted {
                 fields.push(("promoted", J::Bool(true)));
+                fields.push(("promoted_key", s(format!("{}::promoted[{}]", tcx.def_path_str(uv.def), pi.index()))));
             }
         }
         let is_scalar_ty = matches!(
@@ -884,12 +885,35 @@ impl<'tcx> Cx<'tcx> {
     fn collect(&mut self, nonce: String) -> J {
         let tcx = self.tcx;
         let mut bodies = Vec::new();
+        let mut promoted = Vec::new();
         let mut consts = Vec::new();
         for ld in tcx.hir_body_owners() {
             let did = ld.to_def_id();
             match tcx.def_kind(did) {
                 DefKind::Fn | DefKind::AssocFn | DefKind::Closure => {
                     bodies.push(self.body(ld));
+                    let proms = tcx.promoted_mir(did);
+                    for (pi, pb) in proms.iter_enumerated() {
+                        let mut blocks = Vec::new();
+                        for (_, bb) in pb.basic_blocks.iter_enumerated() {
+                            blocks.push(self.block(did, pb, bb));
+                        }
+                        let mut locals = Vec::new();
+                        for (_, ld2) in pb.local_decls.iter_enumerated() {
+                            let tk = self.ty_kind(ld2.ty);
+                            locals.push(obj(vec![("ty", self.ty(ld2.ty)), ("tk", tk), ("name", J::Null)]));
+                        }
+                        promoted.push(obj(vec![
+                            ("path", s(format!("{}::promoted[{}]", tcx.def_path_str(did), pi.index()))),
+                            ("kind", s("Promoted")),
+                            ("root", s(tcx.def_path_str(tcx.typeck_root_def_id(did)))),
+                            ("parent", s(tcx.def_path_str(did))),
+                            ("span", self.span(tcx.def_span(did))),
+                            ("arg_count", n(0)),
+                            ("locals", J::Arr(locals)),
+                            ("blocks", J::Arr(blocks)),
+                        ]));
+                    }
                 }
                 DefKind::Const { .. } | DefKind::AssocConst { .. } => {
                     let t = tcx.type_of(did).instantiate_identity().skip_norm_wip();
@@ -1134,6 +1158,7 @@ impl<'tcx> Cx<'tcx> {
             ("target_features", J::Arr(features)),
             ("overflow_checks", J::Bool(tcx.sess.overflow_checks())),
             ("bodies", J::Arr(bodies)),
+            ("promoted", J::Arr(promoted)),
             ("consts", J::Arr(consts)),
             ("adts", J::Arr(adts)),
             ("impls", J::Arr(impls)),
